@@ -211,6 +211,15 @@ def instance_hypernym_other_pos(L, r):
 
 
 @defect
+def hypernym_to_synset_without_pos(L, r):
+    # partOfSpeech is optional on <Synset>: a hypernym without one is of another part of speech
+    a, b = L['synsets'][0], L['synsets'][1]
+    b.pop('partOfSpeech', None)
+    a.setdefault('relations', []).append({'relType': 'hypernym', 'target': b['id'], 'meta': None})
+    b.setdefault('relations', []).append({'relType': 'hyponym', 'target': a['id'], 'meta': None})
+
+
+@defect
 def blank_example(L, r):
     L['synsets'][r.randrange(4)].setdefault('examples', []).append({'text': r.choice(['', '  ']), 'meta': None})
 
